@@ -4,6 +4,7 @@ from __future__ import annotations
 import ast
 from typing import List, Optional, Set, Tuple
 
+from .. import cfg as C
 from .. import lib as L
 from ..core import AnalysisError, FuncInfo, Repo, unparse
 from ..prov import callee_name
@@ -229,6 +230,25 @@ def rule_order(repo: Repo) -> RuleResult:
         kept = rep.old_content_dropped()
         if kept:
             r.fail(Finding("C18.order", f, "old-names-replaced", f"the old parameters are not replaced by the renamed ones: {kept}", node=rep.inserts[0].site), sample)
+            continue
+        # ... and on EVERY call: no way from the entry to a normal return may bypass the rewriting (a guard that takes the object for
+        # "already renamed" is wrong whenever the new names overlap the old ones)
+        g = C.cfg_of(f.node)
+        pmf = L.parents_of(f)
+        passed = set()
+        for w in rep.inserts:
+            n = g.node_containing(w.site) if not isinstance(w.site, ast.stmt) else g.node_of(w.site)
+            if n is not None:
+                passed.add(n)
+            cur = w.site
+            while cur in pmf:
+                cur = pmf[cur]
+                if isinstance(cur, (ast.For, ast.While)):
+                    passed.add(g.node_of(cur))      # a loop over the old parameters that performs the rewriting (no turn for an empty signature)
+        passed.discard(None)
+        if passed and g.exit in C.reachable_from(g, g.entry, avoid=passed):
+            r.fail(Finding("C18.order", f, "rename-skipped", "some path through the method returns without rewriting the signature: the object keeps its old "
+                           "parameter names while the rest of the action is renamed", node=rep.inserts[0].site), sample)
             continue
         r.ok({"function": f.qn, "form": sorted({w.kind for w in rep.inserts}), **sample})
     r.require_sites(3)
